@@ -216,7 +216,7 @@ type c04Case struct {
 
 func init() {
 	Register(Meta{
-		ID: "C04", Level: "exploration",
+		ID: "C04", Level: "exploration", HangIsViolation: true,
 		Rule:        "data texts: (a) every byte string of length <=3 (quick) / <=4 (thorough) over a 17-byte JSON structural alphabet incl. 0xFF; (b) every proper prefix and every single-byte deletion of three valid documents (flat, AMF-compact with context, lexical); (c) non-JSON formats: a YAML profile, a RAML header, UTF-16LE/BE and UTF-8-BOM encodings, empty, blanks; (d) 30 JSON-LD keyword misuses as the whole document and nested at depth 1 and 2. x 3 compiled profiles x entry points Validate, ValidateWithConfiguration, ValidateCompiled, ValidateCompiledWithConfiguration and the CLI `acv validate` / `acv normalize` (CLI on classes b-d and strings of length <=2). Membership in 'unreadable' is decided by an independent recogniser cross-checked against encoding/json on every input; 'JSON-LD rejects' by calling json-gold directly. Oracle: unreadable or rejected => error and no report (CLI: non-zero exit, empty stdout). Non-trivial = unreadable or rejected input; distinct by bytes.",
 		Assumptions: []string{"json-gold's Flatten is the definition of 'JSON-LD processing rejects it'"},
 	}, c04Gen, c04Run)
